@@ -213,4 +213,17 @@ class C14(Prop):
         acc.count("contract_evaluations", self.rec.evaluations)
 
 
+    def thread_pairs(self, ctx):
+        from ..monitors.threadops import expect
+
+        calc = self.tools.calc_duration
+        clock.set_zone("UTC")
+        return [("calc_duration(13:00,14:00) || calc_duration(22:15,04:30)", lambda: calc("13:00", "14:00"), lambda: calc("22:15", "04:30"),
+                 expect(want(780, 840)), expect(want(1335, 270))),
+                ("calc_duration(00:00,00:43) || calc_duration(23:59,00:42)", lambda: calc("00:00", "00:43"), lambda: calc("23:59", "00:42"),
+                 expect(want(0, 43)), expect(want(1439, 42))),
+                ("calc_duration(14:00,13:00) || calc_duration(14:00,13:00)", lambda: calc("14:00", "13:00"), lambda: calc("14:00", "13:00"),
+                 expect(want(840, 780)), expect(want(840, 780)))]
+
+
 PROP = C14()
